@@ -859,3 +859,55 @@ Proof.
     split; [vm_compute; reflexivity|exact E].
   - vm_compute in E. injection E as <-. vm_compute in P. injection P as <-. split; vm_compute; reflexivity.
 Qed.
+
+(* ================================================================== every alteration is refused, for an ideal MAC / hash
+   (the hypotheses are idealisations stated in the theorem: a tag determines what was authenticated, the
+   hash is injective; nothing of the kind is assumed anywhere else) *)
+Lemma app_eq_len (a a' b b' : list Z) : len a = len a' -> a ++ b = a' ++ b' -> a = a' /\ b = b'.
+Proof.
+  revert a'; induction a as [|x a IH]; intros [|y a'] Hl H; cbn [app] in *.
+  - now split.
+  - rewrite len_nil, len_cons in Hl. pose proof (len_nonneg a'). lia.
+  - rewrite len_nil, len_cons in Hl. pose proof (len_nonneg a). lia.
+  - injection H as -> H. rewrite !len_cons in Hl. destruct (IH a' ltac:(lia) H) as [-> ->]. now split.
+Qed.
+
+Section Ideal.
+  Variable sha : list Z -> list Z.
+  Variable gcm_dec : list Z -> list Z -> list Z -> list Z.
+  Variable gcm_tag : list Z -> list Z -> list Z -> list Z -> list Z.
+  Variable gcm_ok : list Z -> list Z -> list Z -> list Z -> list Z -> bool.
+  Hypothesis mac_sound : forall k iv a c t, gcm_ok k iv a c t = true -> t = gcm_tag k iv a c.
+  Hypothesis mac_inj : forall k iv a c k' iv' a' c',
+    gcm_tag k iv a c = gcm_tag k' iv' a' c' -> k = k' /\ iv = iv' /\ a = a' /\ c = c'.
+  Hypothesis sha_inj : forall x y, sha x = sha y -> x = y.
+
+  Theorem tamper_rejected hdr attrs key iv aad ct file' key' aad' p :
+    header_opens hdr attrs -> sealed_attrs sha attrs key iv -> iv <> [] ->
+    open_decrypt sha gcm_dec gcm_ok true file' key' aad' = Ok p ->
+    let tag := gcm_tag key iv (hdr ++ aad) ct in
+    (* the stored tag is the original one: then header block, ciphertext, AAD and key are the original ones *)
+    (stored_tag file' = Some tag ->
+       stored_header file' = hdr /\ stored_ct file' = ct /\ aad' = aad /\ key' = key) /\
+    (* the header block is the original one: then the key is, and if ciphertext and AAD are too, so is the tag *)
+    (stored_header file' = hdr ->
+       key' = key /\ (stored_ct file' = ct -> aad' = aad -> stored_tag file' = Some tag)).
+  Proof.
+    intros (Hl & _ & _ & Hr) (_ & _ & (kh & Hkh & Hkhv) & (ia & Hia & Hiav)) Hiv Hd tag.
+    destruct (decrypt_sound _ _ _ _ _ _ _ Hd) as (e & iv' & tag' & He & Hiv' & Ht' & Hm & Hok & _).
+    destruct (env_open_inv _ _ He) as (_ & _ & _ & _ & _ & Hlen & Hra & (kh' & Hkh' & Hkhv') & Heiv).
+    apply mac_sound in Hok.
+    assert (Hsl : len (stored_header file') = len hdr).
+    { rewrite Hl. unfold stored_header. apply len_takez. change BLOCK with 4096 in *. lia. }
+    split.
+    - intros Ht. rewrite Ht in Ht'. injection Ht' as <-. unfold tag in Hok.
+      apply mac_inj in Hok as (Hk & _ & Ha & Hc).
+      symmetry in Hsl. destruct (app_eq_len _ _ _ _ Hsl Ha) as [H1 H2]. repeat split; congruence.
+    - intros Hh. rewrite Hh, Hr in Hra. injection Hra as Hat. rewrite <- Hat in Hkh', Heiv.
+      rewrite Hkh in Hkh'. injection Hkh' as <-. rewrite Hkhv', Hkhv in Hm. cbn [hash_matches] in Hm.
+      apply beq_eq, sha_inj, app_inv_head in Hm. split; [exact Hm|].
+      intros Hc Ha. subst key' aad'. rewrite Hia in Heiv. cbn [option_map] in Heiv. rewrite Hiav in Heiv.
+      unfold iv_of in Hiv'. rewrite Heiv in Hiv'. destruct iv as [|b r]; [contradiction|]. injection Hiv' as <-.
+      rewrite Ht'. f_equal. rewrite Hok, Hh, Hc. reflexivity.
+  Qed.
+End Ideal.
